@@ -470,12 +470,18 @@ class JsonCommandField(cabc.Sequence):
         queue.append(self)
         with self.hist._cond:
             self.hist._cond.wait_for(self.i_am_at_the_front)
-            with open(self.hist.filename, newline="\n", encoding="utf-8") as f:
-                lj = xlj.LazyJSON(f, reopen=False)
-                rtn = lj["cmds"][key].get(self.field, self.default)
-                if isinstance(rtn, xlj.LJNode):
-                    rtn = rtn.load()
-            queue.popleft()
+            try:
+                with open(self.hist.filename, newline="\n", encoding="utf-8") as f:
+                    lj = xlj.LazyJSON(f, reopen=False)
+                    rtn = lj["cmds"][key].get(self.field, self.default)
+                    if isinstance(rtn, xlj.LJNode):
+                        rtn = rtn.load()
+            finally:
+                # Always give up our place in the queue (an IndexError or an
+                # unreadable file must not wedge every later flush) and wake
+                # the flushers that queued up behind us.
+                queue.popleft()
+                self.hist._cond.notify_all()
         return rtn
 
     def i_am_at_the_front(self):
